@@ -39,13 +39,20 @@ def main():
              "does not order, different timing where the statement allows it) under which the property still holds. Confirmed by hand "
              "(suite passes, the agent's demonstration passes with and without the patch), then every check whose property is anchored in "
              "a touched file was run with the patch applied: all must stay silent.", "",
-             "| control change | property | what it changes | checks run | quick |", "|---|---|---|---|---|"]
+             "The final record: the property's own check applied in `/repo` (git apply, check, git checkout), every other related check "
+             "on a scratch copy of HEAD with the patch applied (`tools/seeded.py pre`; results kept in meta.json `scratch_checks`).", "",
+             "| control change | property | what it changes | run in /repo | run on a scratch copy | quick |", "|---|---|---|---|---|---|"]
     for mp, m in metas:
         if m.get("kind") != "control":
             continue
         ran = sorted(set(k.split("/")[0] for k in m.get("checks", {})))
-        rows.append("| %s | %s | %s | %s | %s |" % (os.path.basename(os.path.dirname(mp)), m.get("property"), m.get("what", "").replace("|", "\\|"),
-                                                   " ".join(ran), m.get("quick", "?")))
+        sc = m.get("scratch_checks", {})
+        alarms = sorted(k for k, v in sc.items() if v["rc"] != 0)
+        status = m.get("quick", "?")
+        if status == "silent" and alarms:
+            status = "ALARM on a scratch copy: " + ", ".join(alarms)
+        rows.append("| %s | %s | %s | %s | %s | %s |" % (os.path.basename(os.path.dirname(mp)), m.get("property"), m.get("what", "").replace("|", "\\|"),
+                                                        " ".join(ran), " ".join(sorted(sc)), status))
     p = os.path.join(VERIF, "DESIGN.md")
     s = open(p).read()
     a, b = s.index(BEGIN) + len(BEGIN), s.index(END)
